@@ -125,7 +125,6 @@ def refAddResult : Skel :=
     (.act .callTimeStart <| .act .callStartTest <| .act .callTimeNow <|
      .ifAnyGlobal (.act .callTagsGlobal .done) <|
      .ifAnyTest (.act .callTagsTest .done) <|
-     .act .resetTestTags <|
      .tryFinally (.act .callOutcome .done) (.act .callStopTest .done) .done)
     (.act .release .done) <|
   .act .resetTestStart .done
